@@ -97,7 +97,7 @@ func Solve(script, file string, timeoutS int, order []string) SolveResult {
 	return last
 }
 
-var defFunRe = regexp.MustCompile(`\(define-fun\s+(\S+)\s+\(\)\s+(\S+)\s+`)
+var defFunRe = regexp.MustCompile(`\(define-fun\s+(\S+)\s+\(\)\s+`)
 
 // parseModel extracts constant interpretations (define-fun name () Sort value).
 func parseModel(raw string) map[string]string {
@@ -106,7 +106,9 @@ func parseModel(raw string) map[string]string {
 	for _, loc := range idxs {
 		name := raw[loc[2]:loc[3]]
 		rest := raw[loc[1]:]
-		// value is a balanced s-expression or atom
+		sortStr := readSexp(rest)
+		rest = strings.TrimLeft(rest, " \n\t")
+		rest = rest[len(sortStr):]
 		val := readSexp(rest)
 		m[name] = normalizeVal(val)
 	}
